@@ -42,7 +42,7 @@ var partSuffix = []string{"orders/0", "orders/1", "a/b/2", "a:b/3", "pay.v1/10",
 var partParsed = map[int]partKey{0: {"orders", 0}, 1: {"orders", 1}, 2: {"a/b", 2}, 3: {"a:b", 3}, 4: {"pay.v1", 10}, 10: {"t", -1}, 11: {"orders", 2147483647}}
 var groupSuffix = []string{"g0", "g1", "billing", "a/b", "g:x", ""}
 
-type arrival struct{ what string }
+const stepTimeout = 6 * time.Second
 
 type harness struct {
 	admin  *clientv3.Client
@@ -51,12 +51,15 @@ type harness struct {
 
 	arrive chan string
 	resume chan string // "go" | "fail"
+	at     string      // gate the router goroutine is parked at: "get" | "watch" | ""
+	dead   string      // first stuck marker of this case; later ops are skipped
 
-	mu       sync.Mutex
-	watchOn  bool
-	cancelW  context.CancelFunc
-	sentSeen chan int64
-	barrier  chan chan struct{}
+	mu        sync.Mutex
+	watchOn   bool
+	cancelW   context.CancelFunc
+	sentSeen  chan int64
+	barrier   chan chan struct{}
+	compacted int64 // last revision passed to Compact
 
 	pr          *metadata.PartitionRouter
 	gr          *metadata.GroupRouter
@@ -68,6 +71,28 @@ type harness struct {
 
 var errInjected = errors.New("verif: injected etcd read failure")
 
+func (h *harness) sentinelKey() string {
+	if h.kind == "group" {
+		return h.prefix + "/" // empty group id: rejected by groupLeaseKeyToGroupID
+	}
+	return h.prefix + "/~verif-sync" // no partition component: rejected by leaseKeyToRouteKey
+}
+
+// park blocks the router goroutine at a gate; false when the case was torn down meanwhile.
+func (h *harness) park(what string) (string, bool) {
+	select {
+	case h.arrive <- what:
+	case <-time.After(60 * time.Second):
+		return "", false
+	}
+	select {
+	case cmd := <-h.resume:
+		return cmd, true
+	case <-time.After(120 * time.Second):
+		return "", false
+	}
+}
+
 // ---------------------------------------------------------------- interposers
 
 type gKV struct {
@@ -76,22 +101,11 @@ type gKV struct {
 }
 
 func (k *gKV) Get(ctx context.Context, key string, opts ...clientv3.OpOption) (*clientv3.GetResponse, error) {
-	k.h.arrive <- "get"
-	cmd := <-k.h.resume
-	if cmd == "fail" {
+	cmd, ok := k.h.park("get")
+	if !ok || cmd == "fail" {
 		return nil, errInjected
 	}
-	resp, err := k.KV.Get(ctx, key, opts...)
-	if err == nil {
-		kvs := resp.Kvs[:0:0]
-		for _, kv := range resp.Kvs {
-			if !strings.HasSuffix(string(kv.Key), sentinel) {
-				kvs = append(kvs, kv)
-			}
-		}
-		resp.Kvs = kvs
-	}
-	return resp, err
+	return k.KV.Get(ctx, key, opts...)
 }
 
 type gWatcher struct {
@@ -101,10 +115,21 @@ type gWatcher struct {
 
 func (w *gWatcher) Watch(ctx context.Context, key string, opts ...clientv3.OpOption) clientv3.WatchChan {
 	h := w.h
-	h.arrive <- "watch"
-	cmd := <-h.resume
-	out := make(chan clientv3.WatchResponse)
-	if cmd == "fail" || ctx.Err() != nil {
+	cmd, ok := h.park("watch")
+	out := make(chan clientv3.WatchResponse, 1)
+	if !ok || cmd == "fail" || ctx.Err() != nil {
+		close(out)
+		return out
+	}
+	// A start revision before the compaction point: etcd answers with a compacted/cancelled
+	// response and closes the stream.  Produced here deterministically (the server would do it
+	// from its 100 ms sync loop).
+	start := clientv3.OpGet(key, opts...).Rev()
+	h.mu.Lock()
+	compacted := h.compacted
+	h.mu.Unlock()
+	if start != 0 && start < compacted {
+		out <- clientv3.WatchResponse{CompactRevision: compacted, Canceled: true}
 		close(out)
 		return out
 	}
@@ -118,11 +143,12 @@ func (w *gWatcher) Watch(ctx context.Context, key string, opts ...clientv3.OpOpt
 			close(out)
 			return out
 		}
-	case <-time.After(10 * time.Second):
+	case <-time.After(stepTimeout):
 		cancel()
 		close(out)
 		return out
 	}
+	fwd := make(chan clientv3.WatchResponse)
 	h.mu.Lock()
 	h.watchOn = true
 	h.cancelW = cancel
@@ -132,7 +158,7 @@ func (w *gWatcher) Watch(ctx context.Context, key string, opts ...clientv3.OpOpt
 			h.mu.Lock()
 			h.watchOn = false
 			h.mu.Unlock()
-			close(out)
+			close(fwd)
 		}()
 		for {
 			select {
@@ -141,23 +167,15 @@ func (w *gWatcher) Watch(ctx context.Context, key string, opts ...clientv3.OpOpt
 					return
 				}
 				var seen int64
-				evs := resp.Events[:0:0]
 				for _, ev := range resp.Events {
-					if strings.HasSuffix(string(ev.Kv.Key), sentinel) {
-						if ev.Type == clientv3.EventTypePut && ev.Kv.ModRevision > seen {
-							seen = ev.Kv.ModRevision
-						}
-						continue
+					if string(ev.Kv.Key) == h.sentinelKey() && ev.Type == clientv3.EventTypePut && ev.Kv.ModRevision > seen {
+						seen = ev.Kv.ModRevision
 					}
-					evs = append(evs, ev)
 				}
-				if len(evs) > 0 || resp.Err() != nil {
-					resp.Events = evs
-					select {
-					case out <- resp:
-					case <-wctx.Done():
-						return
-					}
+				select {
+				case fwd <- resp:
+				case <-wctx.Done():
+					return
 				}
 				if seen > 0 {
 					select {
@@ -169,7 +187,7 @@ func (w *gWatcher) Watch(ctx context.Context, key string, opts ...clientv3.OpOpt
 				// an empty response: the router can only receive it after it has completely
 				// applied everything forwarded before
 				select {
-				case out <- clientv3.WatchResponse{}:
+				case fwd <- clientv3.WatchResponse{}:
 				case <-wctx.Done():
 				}
 				close(done)
@@ -178,7 +196,7 @@ func (w *gWatcher) Watch(ctx context.Context, key string, opts ...clientv3.OpOpt
 			}
 		}
 	}()
-	return out
+	return fwd
 }
 
 // ---------------------------------------------------------------- ops
@@ -196,29 +214,25 @@ func (h *harness) key(k int) (string, bool) {
 	return h.prefix + "/" + partSuffix[k], true
 }
 
-func (h *harness) waitArrive(want string, d time.Duration) string {
+// waitArrive waits for the router goroutine to park at its next gate and records which.
+func (h *harness) waitArrive() string {
 	select {
 	case a := <-h.arrive:
-		if a != want {
-			return "unexpected-" + a
-		}
-		return "-"
-	case err := <-h.result:
-		if err != nil {
-			return "start-failed"
-		}
-		// constructor returned; keep waiting for the watch goroutine
-		select {
-		case a := <-h.arrive:
-			if a != want {
-				return "unexpected-" + a
-			}
-			return "-"
-		case <-time.After(d):
-			return "no-" + want
-		}
-	case <-time.After(d):
-		return "no-" + want
+		h.at = a
+		return a
+	case <-time.After(stepTimeout):
+		h.at = ""
+		return ""
+	}
+}
+
+func (h *harness) release(cmd string) bool {
+	select {
+	case h.resume <- cmd:
+		h.at = ""
+		return true
+	case <-time.After(stepTimeout):
+		return false
 	}
 }
 
@@ -316,22 +330,23 @@ func (h *harness) sync() string {
 	h.mu.Lock()
 	on := h.watchOn
 	h.mu.Unlock()
+	pre := fmt.Sprintf("watching=%v ", on)
 	if on {
 		for len(h.sentSeen) > 0 {
 			<-h.sentSeen
 		}
 		ctx := context.Background()
-		put, err := h.admin.Put(ctx, h.prefix+"/"+sentinel, "x")
+		put, err := h.admin.Put(ctx, h.sentinelKey(), "x")
 		if err != nil {
-			return "sync-error " + h.dump()
+			return "stuck-sync-error " + pre + h.dump()
 		}
-		_, _ = h.admin.Delete(ctx, h.prefix+"/"+sentinel)
-		deadline := time.After(6 * time.Second)
+		_, _ = h.admin.Delete(ctx, h.sentinelKey())
+		deadline := time.After(stepTimeout)
 		for got := int64(0); got < put.Header.Revision; {
 			select {
 			case got = <-h.sentSeen:
 			case <-deadline:
-				return "sync-timeout " + h.dump()
+				return "stuck-sync " + pre + h.dump()
 			}
 		}
 		done := make(chan struct{})
@@ -339,14 +354,14 @@ func (h *harness) sync() string {
 		case h.barrier <- done:
 			select {
 			case <-done:
-			case <-time.After(6 * time.Second):
-				return "sync-timeout " + h.dump()
+			case <-time.After(stepTimeout):
+				return "stuck-sync " + pre + h.dump()
 			}
-		case <-time.After(6 * time.Second):
-			return "sync-timeout " + h.dump()
+		case <-time.After(stepTimeout):
+			return "stuck-sync " + pre + h.dump()
 		}
 	}
-	return h.dump()
+	return pre + h.dump()
 }
 
 func (h *harness) exec(f []string) string {
@@ -407,15 +422,32 @@ func (h *harness) exec(f []string) string {
 			}
 			h.result <- err
 		}()
-		return h.waitArrive("get", 10*time.Second)
+		if h.waitArrive() != "get" {
+			return "stuck-start"
+		}
+		return "-"
 	case "load":
 		if len(f) != 2 || !h.started {
 			return "bad-op"
 		}
+		h.mu.Lock()
+		running := h.watchOn
+		h.mu.Unlock()
+		if running && h.at == "" {
+			return "-" // the watch is running: nothing to reload (no-op in the model as well)
+		}
+		if h.at == "watch" {
+			return "no-reload" // the loop went straight to Watch without re-reading
+		}
+		if h.at != "get" {
+			return "stuck-load"
+		}
+		cmd := "go"
 		if f[1] == "fail" {
-			h.resume <- "fail"
-		} else {
-			h.resume <- "go"
+			cmd = "fail"
+		}
+		if !h.release(cmd) {
+			return "stuck-load"
 		}
 		if !h.constructed {
 			// the constructor returns first (nil router on a failed initial read)
@@ -426,17 +458,33 @@ func (h *harness) exec(f []string) string {
 					return "start-failed"
 				}
 				h.constructed = true
-			case <-time.After(10 * time.Second):
-				return "constructor-hang"
+			case <-time.After(stepTimeout):
+				return "stuck-constructor"
 			}
 		}
-		return h.waitArrive("watch", 10*time.Second)
+		if a := h.waitArrive(); a == "" {
+			return "stuck-after-load"
+		}
+		return "-"
 	case "watch":
 		if !h.started {
 			return "bad-op"
 		}
-		h.resume <- "go"
-		deadline := time.Now().Add(10 * time.Second)
+		h.mu.Lock()
+		running := h.watchOn
+		h.mu.Unlock()
+		if running && h.at == "" {
+			return "-"
+		}
+		if h.at != "watch" {
+			return "stuck-watch"
+		}
+		if !h.release("go") {
+			return "stuck-watch"
+		}
+		// either the watch gets established, or it fails at once (compacted) and the loop comes
+		// back to a gate after its 1 s sleep
+		deadline := time.Now().Add(stepTimeout)
 		for time.Now().Before(deadline) {
 			h.mu.Lock()
 			on := h.watchOn
@@ -444,9 +492,14 @@ func (h *harness) exec(f []string) string {
 			if on {
 				return "-"
 			}
-			time.Sleep(200 * time.Microsecond)
+			select {
+			case a := <-h.arrive:
+				h.at = a
+				return "watch-failed"
+			case <-time.After(300 * time.Microsecond):
+			}
 		}
-		return "watch-not-established"
+		return "stuck-watch"
 	case "close":
 		h.mu.Lock()
 		cancel, on := h.cancelW, h.watchOn
@@ -455,7 +508,53 @@ func (h *harness) exec(f []string) string {
 			return "bad-op"
 		}
 		cancel()
-		return h.waitArrive("get", 10*time.Second) // the loop sleeps 1 s, then reloads
+		switch h.waitArrive() { // the loop sleeps 1 s, then reloads
+		case "get":
+			return "-"
+		case "watch":
+			return "skipped-reload"
+		}
+		return "stuck-close"
+	case "batch":
+		var ops []clientv3.Op
+		for _, x := range f[1:] {
+			p := strings.Split(x, ":")
+			k := -1
+			if len(p) >= 2 {
+				k, _ = strconv.Atoi(p[1])
+			}
+			key, ok := h.key(k)
+			switch {
+			case ok && p[0] == "p" && len(p) == 3:
+				ops = append(ops, clientv3.OpPut(key, "b"+p[2]))
+			case ok && p[0] == "d" && len(p) == 2:
+				ops = append(ops, clientv3.OpDelete(key))
+			default:
+				return "bad-op"
+			}
+		}
+		if len(ops) == 0 {
+			return "bad-op"
+		}
+		if _, err := h.admin.Txn(ctx).Then(ops...).Commit(); err != nil {
+			return "batch-error"
+		}
+		return "-"
+	case "compact":
+		resp, err := h.admin.Get(ctx, h.prefix+"/", clientv3.WithPrefix(), clientv3.WithCountOnly())
+		if err != nil {
+			return "compact-error"
+		}
+		h.mu.Lock()
+		already := h.compacted == resp.Header.Revision
+		h.mu.Unlock()
+		if _, err := h.admin.Compact(ctx, resp.Header.Revision); err != nil && !already {
+			return "compact-error"
+		}
+		h.mu.Lock()
+		h.compacted = resp.Header.Revision
+		h.mu.Unlock()
+		return "-"
 	case "invalidate":
 		if len(f) != 2 {
 			return "bad-op"
@@ -484,13 +583,18 @@ func (h *harness) teardown() {
 	if h.stop != nil {
 		h.stop()
 	}
-	// unblock a router goroutine parked at a gate
-	for i := 0; i < 4; i++ {
+	h.mu.Lock()
+	if h.cancelW != nil {
+		h.cancelW()
+	}
+	h.mu.Unlock()
+	// unblock a router goroutine parked at a gate (it then runs into the cancelled context)
+	for i := 0; i < 6; i++ {
 		select {
 		case h.resume <- "fail":
 		case <-h.arrive:
 		case <-h.result:
-		case <-time.After(20 * time.Millisecond):
+		case <-time.After(10 * time.Millisecond):
 		}
 	}
 	_, _ = h.admin.Delete(context.Background(), "/kafscale/", clientv3.WithPrefix())
@@ -572,7 +676,16 @@ func main() {
 			fmt.Fprintln(out, "bad-op")
 			continue
 		}
-		fmt.Fprintln(out, h.exec(f))
+		if h.dead != "" {
+			fmt.Fprintln(out, "skipped-after-"+h.dead)
+			out.Flush()
+			continue
+		}
+		res := h.exec(f)
+		if strings.HasPrefix(res, "stuck-") {
+			h.dead = strings.Fields(res)[0]
+		}
+		fmt.Fprintln(out, res)
 		out.Flush()
 	}
 	if h != nil {
